@@ -38,7 +38,7 @@ var Prop = &engine.Prop{
 		"UpdateHandler after Start and panics inside OnExit are not judged",
 		"the loop-back server kind runs under real time; its watchdog expiry is inconclusive",
 	},
-	ShardsQuick: 8, ShardsThorough: 32,
+	ShardsQuick: 8, ShardsThorough: 16,
 	Setup: func(c *engine.Ctx) {
 		Q = engine.NewQuiescer()
 		quietLogger = ulog.NewSimpleLogger("error")
